@@ -20,7 +20,7 @@ func init() {
 			"(presence) reserved keys, duplicate node, unknown endpoints, single-target branch, state handler without state are error arms that block the corresponding write; each edge list is scanned for the end node under exactly the conditions under which it is extended (duplicate edges rejected for every combination of control/data flags); " +
 			"(no-panic) no explicit panic is reachable (VTA) from the Add*/Append*/Compile entry points; (nil-miss-deref) no unchecked map-miss dereference in builder/compile code; " +
 			"(chain-sticky) Chain.addNode checks the sticky error and the compiled flag first and reportError keeps the first error.",
-		decided:    []string{"guards-dominate-writes", "compile-pure", "gates", "presence", "no-panic", "nil-miss-deref", "chain-sticky"},
+		decided:    []string{"guards-dominate-writes", "compile-pure", "gates", "presence", "no-panic", "nil-miss-deref", "chain-sticky", "workflow-compile-once"},
 		notDecided: []string{"outcome determinism under map iteration order (which of several errors is reported first)", "correctness of each validation over all construction sequences", "run-time panics raised by the Go runtime (index out of range etc.) other than nil-map-miss dereferences"},
 		run:        runC20,
 	})
